@@ -60,12 +60,13 @@ def _points_part(run, rng, lines, meta, thorough):
             if 1 <= d <= 8:
                 mats.append(m)
         rng.shuffle(mats)
-        mats = mats[:1500]
-        mats += [_random_smat(rng) for _ in range(300)]
+        mats = mats[:4000]
+        mats += [_random_smat(rng) for _ in range(600)]
+        mats += [_random_smat(rng, lim=5, max_det=40) for _ in range(200)]
     else:
-        mats = gen.supercell_matrices(rng, max_det=8, count=40)
-        mats += [_random_smat(rng) for _ in range(20)]
-        mats += [_random_smat(rng, lim=5, max_det=30) for _ in range(6)]
+        mats = gen.supercell_matrices(rng, max_det=8, count=90)
+        mats += [_random_smat(rng) for _ in range(50)]
+        mats += [_random_smat(rng, lim=5, max_det=30) for _ in range(12)]
     for S in mats:
         S = np.array(S, dtype=int)
         det = int(round(np.linalg.det(S)))
@@ -193,7 +194,7 @@ def _transform_part(run, rng, lines, meta, thorough):
     names = ["sc", "cscl", "nacl_prim", "zincblende_prim", "hcp", "bcc", "bct", "triclinic", "mono_P", "rhombo", "fcc"]
     if thorough:
         names += ["wurtzite", "perovskite", "rutile", "ortho_C", "nacl"]
-    ncases = 40 if thorough else 10
+    ncases = 120 if thorough else 24
     nmax = 32 if thorough else 16
     made = attempts = 0
     while made < ncases and attempts < 20 * ncases:
@@ -229,6 +230,9 @@ def _transform_part(run, rng, lines, meta, thorough):
             cutoff = max(cutoff, 1.05 * min(np.linalg.norm(prim.cell, axis=1)) * 0.8)
             phi_raw = U.pair_fc(scell, cutoff)
             phi = phi_raw
+            if not U.close(F.compact_fc_to_full_fc(prim, F.full_fc_to_compact_fc(prim, phi)), phi, 1e-12):
+                run.count("generator: pair fc not periodic (case skipped)")
+                continue
         else:
             fcc0 = gen.rand_rational_array(rng, (npa, ns, 3, 3))
             phi_raw = F.compact_fc_to_full_fc(prim, fcc0)
@@ -351,7 +355,7 @@ def _ph2ph_part(run, rng, thorough):
     polar = ["nacl_prim", "zincblende_prim", "cscl"]
     other = ["sc", "hcp", "bcc", "triclinic"]
     factors = [np.diag([2, 1, 1]), np.diag([1, 2, 1]), np.diag([1, 1, 2]), np.array([[1, 1, 0], [0, 2, 0], [0, 0, 1]]), np.diag([2, 2, 1]), np.array([[1, 0, 0], [0, 1, 1], [0, -1, 1]])]
-    ncases = 16 if thorough else 5
+    ncases = 40 if thorough else 8
     for c in range(ncases):
         nac = c % 2 == 1
         name = rng.choice(polar if nac else polar + other)
